@@ -4,7 +4,7 @@
 
    Model: model/CV.v (Block::generate_consensus_values), model/Supply.v (Block::create,
    Block::validate, ledger effects, Blockchain::check_total_supply), code as of /repo
-   92b2ed5, tied to the real code by harness/src/bin/c02.rs (every header field /
+   9007b23, tied to the real code by harness/src/bin/c02.rs (every header field /
    rebroadcast / fee transaction of every block the real Block::create builds, the verdict
    of the real add_block and the in-window utxo set after it, debug and release profiles).
 
@@ -21,7 +21,7 @@
    rebroadcasts consume exactly the outputs that leave it; fees of every user-originated type,
    the 5 % cap branch and the saturating payout arithmetic are covered.  The witnesses of all
    defects found so far are kept as regression Examples (refused, or accepted with the supply
-   unchanged); no accepted block that changes the supply is known for 92b2ed5.  What the
+   unchanged); no accepted block that changes the supply is known for 9007b23.  What the
    theorems leave out (Known.clean) is scope, not a known defect:
      Known_C02_bound_or_spv   the block carries a Bound (NFT) slip or an SPV-typed transaction
      Known_C02_nft_expiring   the block leaving the window carries Bound outputs
